@@ -168,6 +168,15 @@ pub fn unk_layouts() -> Vec<(&'static str, Vec<(u32, u32, Vec<usize>)>)> {
             ],
         ),
         (
+            // a later DEFAULT-only range line takes a character back out of an earlier range
+            "override-default",
+            vec![
+                (sp, sp, vec![CAT_SPACE]),
+                (a, c, vec![CAT_T]),
+                (b, b, vec![CAT_DEFAULT]),
+            ],
+        ),
+        (
             "space-shared",
             vec![
                 (sp, sp, vec![CAT_SPACE, CAT_T]),
@@ -300,6 +309,11 @@ pub fn u_nul(_tier: Tier) -> Vec<Universe> {
             "nul-default",
             vec![(a, a, vec![CAT_T]), (0x20, 0x20, vec![CAT_SPACE])],
         ),
+        (
+            // U+0000 is a SPACE character; the last BMP character U+FFFF is not
+            "nul-space",
+            vec![(0u32, 0x20, vec![CAT_SPACE]), (a, a, vec![CAT_T])],
+        ),
     ] {
         for (tn, t) in [("T=012", (0u8, 1u8, 2u16)), ("T=101", (1, 0, 1))] {
             for (xname, lex) in lexicon_menu() {
@@ -329,7 +343,7 @@ pub fn u_nul(_tier: Tier) -> Vec<Universe> {
                     out.push(Universe {
                         name: format!("nul/{nm}/{tn}/{xname}/DEFAULT-line@2"),
                         dict: d2,
-                        alphabet: vec!['a', 'b', '\0', '😀', ' '],
+                        alphabet: if nm == "nul-space" { vec!['a', '\u{FFFF}', '\0', '\u{FFFE}', ' '] } else { vec!['a', 'b', '\0', '😀', ' '] },
                         opts: vec![Opts { ignore_space: true, mgl: 1 }],
                         k1: false,
                         mapping: None,
@@ -341,7 +355,7 @@ pub fn u_nul(_tier: Tier) -> Vec<Universe> {
                 out.push(Universe {
                     name: format!("nul-alias/{nm}/{tn}/{xname}"),
                     dict: d.clone(),
-                    alphabet: vec!['a', '\u{10020}', '\u{10061}', 'b', ' '],
+                    alphabet: if nm == "nul-space" { vec!['a', '\u{FFFF}', 'b', '\0', ' '] } else { vec!['a', '\u{10020}', '\u{10061}', 'b', ' '] },
                     opts: vec![
                         Opts { ignore_space: false, mgl: 0 },
                         Opts { ignore_space: true, mgl: 1 },
@@ -353,7 +367,7 @@ pub fn u_nul(_tier: Tier) -> Vec<Universe> {
                 out.push(Universe {
                     name: format!("nul/{nm}/{tn}/{xname}"),
                     dict: d,
-                    alphabet: vec!['a', 'b', '\0', '😀', ' '],
+                    alphabet: if nm == "nul-space" { vec!['a', '\u{FFFF}', '\0', '\u{FFFE}', ' '] } else { vec!['a', 'b', '\0', '😀', ' '] },
                     opts: vec![
                         Opts {
                             ignore_space: false,
